@@ -380,3 +380,5 @@ B("c11-coalesce-stale-cache", ["C11", "C13"], ENGINE, "                last_warp
 
 B("c03-keyonly-multi-joined", ["C01", "C03", "C04"], SM, "            elif key in BaseSimfile.MULTI_VALUE_PROPERTIES and param.value is not None:", "            elif key in BaseSimfile.MULTI_VALUE_PROPERTIES:", "key-only multi-value")
 P("p-keyonly-by-length", ["C01", "C03", "C04"], [(SM, "            elif key in BaseSimfile.MULTI_VALUE_PROPERTIES and param.value is not None:", "            elif key in BaseSimfile.MULTI_VALUE_PROPERTIES and len(param.components) > 1:")])
+VARIANTS.append({"id": "g-negate-every-if-else", "props": ALL, "kind": "preserve", "edits": [], "transform": "negate_if"})
+VARIANTS.append({"id": "g-return-through-temp", "props": ALL, "kind": "preserve", "edits": [], "transform": "return_temp"})
